@@ -6,6 +6,7 @@ import (
 	"path/filepath"
 	"sort"
 	"strings"
+	"sync"
 	"time"
 
 	"verif/internal/c20/cw"
@@ -57,16 +58,11 @@ func (k *check) transparencyJobs() (jobs, post []func()) {
 	c := k.c
 	ts = &transState{kinds: map[string]int{}, kindsRestored: map[string]int{}, stdFailed: map[string]string{}}
 	pkgs := genCorpus(c.Rand("corpus"), c.N(30, 150))
-	// build-tag sensitive constant in package 0, used by the tagged end-to-end build
-	for n, src := range pkgs[0].Files {
-		if strings.Contains(src, "func Sum() int {\n\treturn ") {
-			pkgs[0].Files[n] = strings.Replace(src, "func Sum() int {\n\treturn ", "func Sum() int {\n\treturn tagBonus + ", 1)
-		}
-	}
-	pkgs[0].Files["tag_on.go"] = "//go:build c20tag\n\npackage " + pkgs[0].Name + "\n\nconst tagBonus = 100000\n"
-	pkgs[0].Files["tag_off.go"] = "//go:build !c20tag\n\npackage " + pkgs[0].Name + "\n\nconst tagBonus = 0\n"
 
-	files := map[string]string{"impl/impl.go": implPkg, "bad/bad.go": badPkg}
+	files := map[string]string{"impl/impl.go": implPkg}
+	for n, src := range badPkg {
+		files[n] = src
+	}
 	var clean []corpusPkg
 	for _, p := range pkgs {
 		for n, src := range p.Files {
@@ -185,12 +181,38 @@ func (k *check) transparencyJobs() (jobs, post []func()) {
 	}
 
 	// (c) end to end
+	e2ePkgs := clean
+	if c.Quick() {
+		// a smaller program with every clean feature (stride 3 over the feature list)
+		e2ePkgs = nil
+		for _, p := range genCorpusStride(c.Rand("corpus-e2e"), 8, 3) {
+			if !p.Floating {
+				e2ePkgs = append(e2ePkgs, p)
+			}
+		}
+	}
+	addTagFile(e2ePkgs)
 	e2e := []func(){
-		func() { k.e2eClean(prog, pkgs, clean) },
+		func() { k.e2eTransparency(e2ePkgs) },
+		func() { k.e2eStaleness(e2ePkgs) },
 		func() { k.e2eSentinel() },
 	}
 	jobs = append(e2e, jobs...)
 	return jobs, nil
+}
+
+// addTagFile makes package 0 sensitive to the build tag c20tag (used by the tagged end-to-end build).
+func addTagFile(pkgs []corpusPkg) {
+	if len(pkgs) == 0 || pkgs[0].Files["tag_on.go"] != "" {
+		return
+	}
+	for n, src := range pkgs[0].Files {
+		if strings.Contains(src, "func Sum() int {\n\treturn ") {
+			pkgs[0].Files[n] = strings.Replace(src, "func Sum() int {\n\treturn ", "func Sum() int {\n\treturn tagBonus + ", 1)
+		}
+	}
+	pkgs[0].Files["tag_on.go"] = "//go:build c20tag\n\npackage " + pkgs[0].Name + "\n\nconst tagBonus = 100000\n"
+	pkgs[0].Files["tag_off.go"] = "//go:build !c20tag\n\npackage " + pkgs[0].Name + "\n\nconst tagBonus = 0\n"
 }
 
 func firstLineOf(s string) string {
@@ -234,11 +256,11 @@ func (k *check) judgeRoundTrip(origin string, x cw.RTResult, dir string) {
 	k.mu.Unlock()
 	switch {
 	case x.Panic != "" && !x.Loaded:
-		c.Violate("transparency/panic/"+name, fmt.Sprintf("round trip of %s panicked: %s", name, x.Panic), files)
+		k.violate("transparency/panic/"+name, fmt.Sprintf("round trip of %s panicked: %s", name, x.Panic), files)
 	case !x.Stored:
-		c.Violate("transparency/store-failed/"+name, fmt.Sprintf("BuildCache.Store refused the well-formed package %s (%d files) in a healthy cache directory: its node kinds cannot be cached (kinds: %v)", name, x.Files, kindList(x.Kinds)), files)
+		k.violate("transparency/store-failed/"+name, fmt.Sprintf("BuildCache.Store refused the well-formed package %s (%d files) in a healthy cache directory: its node kinds cannot be cached (kinds: %v)", name, x.Files, kindList(x.Kinds)), files)
 	case !x.Loaded:
-		c.Violate("transparency/load-missed/"+name, fmt.Sprintf("package %s was stored (%d bytes) but the immediate Load under the same configuration and time missed", name, x.Bytes), files)
+		k.violate("transparency/load-missed/"+name, fmt.Sprintf("package %s was stored (%d bytes) but the immediate Load under the same configuration and time missed", name, x.Bytes), files)
 	case x.Exact:
 		k.mu.Lock()
 		ts.exact++
@@ -259,10 +281,10 @@ func (k *check) judgeRoundTrip(origin string, x cw.RTResult, dir string) {
 				w, nil)
 		}
 	default:
-		c.Violate("transparency/content/"+name, fmt.Sprintf("package %s restored from the cache differs from what was stored: %s (print differs=%v, linknames differ=%v: %v → %v)", name, x.Detail, x.PrintDiffers, x.LinkDiffers, x.LinkOrig, x.LinkRestored), files)
+		k.violate("transparency/content/"+name, fmt.Sprintf("package %s restored from the cache differs from what was stored: %s (print differs=%v, linknames differ=%v: %v → %v)", name, x.Detail, x.PrintDiffers, x.LinkDiffers, x.LinkOrig, x.LinkRestored), files)
 	}
 	if x.Loaded && !x.SecondGeneration {
-		c.Violate("transparency/second-generation/"+name, fmt.Sprintf("storing the restored package %s again and loading it does not reproduce it", name), files)
+		k.violate("transparency/second-generation/"+name, fmt.Sprintf("storing the restored package %s again and loading it does not reproduce it", name), files)
 	}
 }
 
@@ -323,7 +345,7 @@ type buildRes struct {
 	out   string
 }
 
-func (k *check) build(dir, cacheHome, mode, name string, tags string) buildRes {
+func (k *check) build(dir, cacheHome, mode, name string, tags string, env ...string) buildRes {
 	out := filepath.Join(dir, name+".js")
 	sf := filepath.Join(dir, name+".stats.json")
 	os.Remove(out)
@@ -332,7 +354,7 @@ func (k *check) build(dir, cacheHome, mode, name string, tags string) buildRes {
 	if tags != "" {
 		args = append(args, "-tags", tags)
 	}
-	r := core.Exec(dir, k.env(cacheHome), 10*time.Minute, "", k.c.Self, args...)
+	r := core.Exec(dir, k.env(cacheHome, env...), 10*time.Minute, "", k.c.Self, args...)
 	res := buildRes{out: r.Stdout + r.Stderr}
 	if r.TimedOut {
 		k.c.Inconclusive("e2e-build-timeout")
@@ -395,38 +417,74 @@ func jsDiff(a, b string) string {
 func (k *check) expectCold(prefix string, r buildRes, files map[string]string) {
 	k.eval(1)
 	if len(r.stats.LoadHits) > 0 {
-		k.c.Violate(prefix+"/cold-session-hit", fmt.Sprintf("a session on an empty cache directory loaded %v from the cache", r.stats.LoadHits), files)
+		k.violate(prefix+"/cold-session-hit", fmt.Sprintf("a session on an empty cache directory loaded %v from the cache", r.stats.LoadHits), files)
 	}
 	if len(r.stats.StoreFail) > 0 {
-		k.c.Violate(prefix+"/store-failed", fmt.Sprintf("Store failed in a healthy cache directory for %v", r.stats.StoreFail), files)
+		k.violate(prefix+"/store-failed", fmt.Sprintf("Store failed in a healthy cache directory for %v", r.stats.StoreFail), files)
 	}
 	if d := minus(r.stats.LoadMiss, r.stats.StoreOK); len(d) > 0 {
-		k.c.Violate(prefix+"/missed-not-stored", fmt.Sprintf("packages missed but never stored: %v", d), files)
+		k.violate(prefix+"/missed-not-stored", fmt.Sprintf("packages missed but never stored: %v", d), files)
 	}
 }
 
 func (k *check) expectWarm(prefix string, r buildRes, stored []string, files map[string]string) {
 	k.eval(1)
 	if d := minus(stored, r.stats.LoadHits); len(d) > 0 {
-		k.c.Violate(prefix+"/warm-session-missed", fmt.Sprintf("a new session over unchanged sources missed %v although the previous session stored them (hits %d, misses %v)", d, len(r.stats.LoadHits), r.stats.LoadMiss), files)
+		k.violate(prefix+"/warm-session-missed", fmt.Sprintf("a new session over unchanged sources missed %v although the previous session stored them (hits %d, misses %v)", d, len(r.stats.LoadHits), r.stats.LoadMiss), files)
 	}
 }
 
-func (k *check) e2eClean(prog string, pkgs, clean []corpusPkg) {
+// e2eProgram is the corpus program laid out in a GOPATH (module-mode package lookups exec
+// `go list` once per package, ~1 s each here; the sentinels are built in module mode).
+type e2eProgram struct {
+	gopath, dir string
+	env         []string
+	pkgs        []corpusPkg
+}
+
+func (k *check) writeE2E(pkgs []corpusPkg) *e2eProgram {
+	gp := k.c.Dir("gopath")
+	p := &e2eProgram{gopath: gp, dir: filepath.Join(gp, "src", "prog"), env: []string{"GO111MODULE=off", "GOPATH=" + gp}, pkgs: pkgs}
+	files := map[string]string{"impl/impl.go": implPkg, "main.go": mainFor(pkgs, "")}
+	for _, q := range pkgs {
+		for n, src := range q.Files {
+			files[q.Name+"/"+n] = src
+		}
+	}
+	for n, src := range files {
+		f := filepath.Join(p.dir, n)
+		os.MkdirAll(filepath.Dir(f), 0o755)
+		os.WriteFile(f, []byte(src), 0o644)
+	}
+	return p
+}
+
+func (k *check) e2eFail(step string, r buildRes) bool {
+	if !r.ok {
+		k.c.Inconclusive("e2e-program-does-not-build")
+		fmt.Printf("C20 e2e: step %s of the corpus program failed to build (inconclusive):\n%s\n", step, tail(r.out, 1500))
+		return true
+	}
+	return false
+}
+
+// e2eTransparency: NoCache vs cold vs warm session, then another tag set on the same cache
+// directory, then the untagged build again.
+func (k *check) e2eTransparency(pkgs []corpusPkg) {
 	c := k.c
 	const prefix = "e2e/corpus-program"
+	p := k.writeE2E(pkgs)
+	prog := p.dir
 	files := readFiles(prog)
 	home := c.Dir("e2e-cache")
-	fail := func(step string, r buildRes) bool {
-		if !r.ok {
-			c.Inconclusive("e2e-program-does-not-build")
-			fmt.Printf("C20 e2e: step %s of the corpus program failed to build (inconclusive):\n%s\n", step, tail(r.out, 1500))
-			return true
-		}
-		return false
-	}
-	none := k.build(prog, home, "none", "none", "")
-	if fail("none", none) {
+	var none, tnone buildRes
+	var wg sync.WaitGroup
+	wg.Add(2)
+	go func() { defer wg.Done(); none = k.build(prog, home, "none", "none", "", p.env...) }()
+	go func() { defer wg.Done(); tnone = k.build(prog, home, "none", "tag-none", "c20tag", p.env...) }()
+	cold := k.build(prog, home, "on", "cold", "", p.env...)
+	wg.Wait()
+	if k.e2eFail("none", none) || k.e2eFail("cold", cold) {
 		return
 	}
 	run := c.RunNode(filepath.Join(prog, "none.js"), core.NodeOpt{Timeout: time.Minute})
@@ -434,64 +492,73 @@ func (k *check) e2eClean(prog string, pkgs, clean []corpusPkg) {
 		c.Inconclusive("e2e-program-does-not-run")
 		fmt.Println("C20 e2e: corpus program does not run under node (inconclusive):", tail(run.Stdout+run.Stderr, 800))
 	}
-	cold := k.build(prog, home, "on", "cold", "")
-	if fail("cold", cold) {
-		return
-	}
 	k.mu.Lock()
 	ts.e2ePrograms++
 	k.mu.Unlock()
 	k.expectCold(prefix, cold, files)
-	warm := k.build(prog, home, "on", "warm", "")
-	if fail("warm", warm) {
-		c.Violate(prefix+"/warm-build-fails", "the program builds from source but fails when its packages are restored from the cache:\n"+tail(warm.out, 1500), files)
+	warm := k.build(prog, home, "on", "warm", "", p.env...)
+	if !warm.ok {
+		k.violate(prefix+"/warm-build-fails", "the program builds from source but fails when its packages are restored from the cache:\n"+tail(warm.out, 1500), files)
 		return
 	}
 	k.expectWarm(prefix, warm, cold.stats.StoreOK, files)
 	k.eval(2)
 	if cold.js != none.js {
-		c.Violate(prefix+"/cold-vs-nocache", "JavaScript of the cold-cache session differs from the NoCache build: "+jsDiff(none.js, cold.js), files)
+		k.violate(prefix+"/cold-vs-nocache", "JavaScript of the cold-cache session differs from the NoCache build: "+jsDiff(none.js, cold.js), files)
 	}
 	if warm.js != none.js {
-		c.Violate(prefix+"/warm-vs-nocache", "JavaScript compiled from packages restored from the cache differs from the NoCache build: "+jsDiff(none.js, warm.js), files)
+		k.violate(prefix+"/warm-vs-nocache", "JavaScript compiled from packages restored from the cache differs from the NoCache build: "+jsDiff(none.js, warm.js), files)
 	}
 	c.Sample(map[string]any{"e2e": "corpus program", "packages": len(none.stats.Packages), "cold_misses": len(cold.stats.LoadMiss), "cold_stores": len(cold.stats.StoreOK),
 		"warm_hits": len(warm.stats.LoadHits), "warm_misses": len(warm.stats.LoadMiss), "js_bytes": len(none.js)})
 
 	// other build tags: another configuration, nothing may be shared
-	tnone := k.build(prog, home, "none", "tag-none", "c20tag")
-	tcold := k.build(prog, home, "on", "tag-cold", "c20tag")
-	if !fail("tag-none", tnone) && !fail("tag-cold", tcold) {
-		k.eval(2)
-		if tnone.js == none.js {
-			c.Inconclusive("e2e-tag-does-not-change-output")
-		}
-		if len(tcold.stats.LoadHits) > 0 {
-			c.Violate(prefix+"/other-tags-hit", fmt.Sprintf("a session with build tag c20tag loaded %d packages stored by a session without it: %.300v", len(tcold.stats.LoadHits), tcold.stats.LoadHits), files)
-		}
-		if tcold.js != tnone.js {
-			c.Violate(prefix+"/other-tags-js", "JavaScript of the tagged build with cache differs from the tagged NoCache build: "+jsDiff(tnone.js, tcold.js), files)
-		}
-		twarm := k.build(prog, home, "on", "tag-warm", "c20tag")
-		if !fail("tag-warm", twarm) {
-			k.eval(1)
-			k.expectWarm(prefix+"/tagged", twarm, tcold.stats.StoreOK, files)
-			if twarm.js != tnone.js {
-				c.Violate(prefix+"/other-tags-warm-js", "JavaScript of the warm tagged build differs from the tagged NoCache build: "+jsDiff(tnone.js, twarm.js), files)
-			}
-		}
-		warm2 := k.build(prog, home, "on", "warm2", "")
-		if !fail("warm2", warm2) {
-			k.eval(1)
-			k.expectWarm(prefix+"/after-tagged", warm2, cold.stats.StoreOK, files)
-			if warm2.js != none.js {
-				c.Violate(prefix+"/after-tagged-js", "after a tagged build used the same cache directory the untagged warm build differs from NoCache: "+jsDiff(none.js, warm2.js), files)
-			}
+	tcold := k.build(prog, home, "on", "tag-cold", "c20tag", p.env...)
+	if k.e2eFail("tag-none", tnone) || k.e2eFail("tag-cold", tcold) {
+		return
+	}
+	k.eval(2)
+	if tnone.js == none.js {
+		c.Inconclusive("e2e-tag-does-not-change-output")
+	}
+	if len(tcold.stats.LoadHits) > 0 {
+		k.violate(prefix+"/other-tags-hit", fmt.Sprintf("a session with build tag c20tag loaded %d packages stored by a session without it: %.300v", len(tcold.stats.LoadHits), tcold.stats.LoadHits), files)
+	}
+	if tcold.js != tnone.js {
+		k.violate(prefix+"/other-tags-js", "JavaScript of the tagged build with cache differs from the tagged NoCache build: "+jsDiff(tnone.js, tcold.js), files)
+	}
+	var twarm, warm2 buildRes
+	twarm = k.build(prog, home, "on", "tag-warm", "c20tag", p.env...)
+	warm2 = k.build(prog, home, "on", "warm2", "", p.env...)
+	if !k.e2eFail("tag-warm", twarm) {
+		k.eval(1)
+		k.expectWarm(prefix+"/tagged", twarm, tcold.stats.StoreOK, files)
+		if twarm.js != tnone.js {
+			k.violate(prefix+"/other-tags-warm-js", "JavaScript of the warm tagged build differs from the tagged NoCache build: "+jsDiff(tnone.js, twarm.js), files)
 		}
 	}
+	if !k.e2eFail("warm2", warm2) {
+		k.eval(1)
+		k.expectWarm(prefix+"/after-tagged", warm2, cold.stats.StoreOK, files)
+		if warm2.js != none.js {
+			k.violate(prefix+"/after-tagged-js", "after a tagged build used the same cache directory the untagged warm build differs from NoCache: "+jsDiff(none.js, warm2.js), files)
+		}
+	}
+}
 
-	// staleness end to end: edit one package; it and its importers must be re-parsed
-	victim := clean[len(clean)/2]
+// e2eStaleness: edit one package after a cold session; it and its importers must be re-parsed,
+// everything else must hit, and the output must equal the NoCache build of the edited program.
+func (k *check) e2eStaleness(pkgs []corpusPkg) {
+	c := k.c
+	const prefix = "e2e/corpus-program"
+	p := k.writeE2E(pkgs)
+	prog := p.dir
+	home := c.Dir("e2e-cache")
+	cold := k.build(prog, home, "on", "cold", "", p.env...)
+	if k.e2eFail("cold(staleness)", cold) {
+		return
+	}
+	victim := pkgs[len(pkgs)/2]
 	for n, src := range victim.Files {
 		if strings.Contains(src, "func Sum() int {\n\treturn ") {
 			src = strings.Replace(src, "func Sum() int {\n\treturn ", "func Sum() int {\n\treturn 777 + ", 1)
@@ -500,85 +567,59 @@ func (k *check) e2eClean(prog string, pkgs, clean []corpusPkg) {
 		}
 	}
 	files2 := readFiles(prog)
-	mnone := k.build(prog, home, "none", "mod-none", "")
-	mcold := k.build(prog, home, "on", "mod-cold", "")
-	if !fail("mod-none", mnone) && !fail("mod-cold", mcold) {
-		k.eval(3)
-		if mnone.js == none.js {
-			c.Inconclusive("e2e-edit-does-not-change-output")
-		}
-		hits := setOf(mcold.stats.LoadHits)
-		for _, must := range []string{victim.Path, "prog"} {
-			if hits[must] {
-				c.Violate(prefix+"/stale-hit", fmt.Sprintf("after editing %s the next session loaded %s from the cache (entry older than the sources)", victim.Path, must), files2)
-			}
-		}
-		if mcold.js != mnone.js {
-			c.Violate(prefix+"/stale-js", fmt.Sprintf("after editing %s the cached build differs from the NoCache build: %s", victim.Path, jsDiff(mnone.js, mcold.js)), files2)
-		}
-		if len(mcold.stats.LoadHits) == 0 {
-			c.Inconclusive("e2e-edit-invalidated-everything")
-		}
-		mwarm := k.build(prog, home, "on", "mod-warm", "")
-		if !fail("mod-warm", mwarm) {
-			k.eval(1)
-			if mwarm.js != mnone.js {
-				c.Violate(prefix+"/stale-warm-js", "the session after the re-store differs from the NoCache build: "+jsDiff(mnone.js, mwarm.js), files2)
-			}
-			k.expectWarm(prefix+"/after-edit", mwarm, append(append([]string{}, mcold.stats.StoreOK...), mcold.stats.LoadHits...), files2)
-		}
-		c.Sample(map[string]any{"e2e": "after editing " + victim.Path, "hits": len(mcold.stats.LoadHits), "misses": mcold.stats.LoadMiss})
+	var mnone buildRes
+	var wg sync.WaitGroup
+	wg.Add(1)
+	go func() { defer wg.Done(); mnone = k.build(prog, home, "none", "mod-none", "", p.env...) }()
+	mcold := k.build(prog, home, "on", "mod-cold", "", p.env...)
+	wg.Wait()
+	if k.e2eFail("mod-none", mnone) || k.e2eFail("mod-cold", mcold) {
+		return
 	}
+	k.eval(3)
+	if mnone.js == cold.js {
+		c.Inconclusive("e2e-edit-does-not-change-output")
+	}
+	hits := setOf(mcold.stats.LoadHits)
+	for _, must := range []string{victim.Path, "prog", "."} {
+		if hits[must] {
+			k.violate(prefix+"/stale-hit", fmt.Sprintf("after editing %s the next session loaded %s from the cache (entry older than the sources)", victim.Path, must), files2)
+		}
+	}
+	if mcold.js != mnone.js {
+		k.violate(prefix+"/stale-js", fmt.Sprintf("after editing %s the cached build differs from the NoCache build: %s", victim.Path, jsDiff(mnone.js, mcold.js)), files2)
+	}
+	if len(mcold.stats.LoadHits) == 0 {
+		c.Inconclusive("e2e-edit-invalidated-everything")
+	}
+	mwarm := k.build(prog, home, "on", "mod-warm", "", p.env...)
+	if !k.e2eFail("mod-warm", mwarm) {
+		k.eval(1)
+		if mwarm.js != mnone.js {
+			k.violate(prefix+"/stale-warm-js", "the session after the re-store differs from the NoCache build: "+jsDiff(mnone.js, mwarm.js), files2)
+		}
+		k.expectWarm(prefix+"/after-edit", mwarm, append(append([]string{}, mcold.stats.StoreOK...), mcold.stats.LoadHits...), files2)
+	}
+	c.Sample(map[string]any{"e2e": "after editing " + victim.Path, "hits": len(mcold.stats.LoadHits), "misses": mcold.stats.LoadMiss})
 }
 
 func (k *check) e2eSentinel() {
-	c := k.c
 	verdict := map[string]string{}
 	detail := map[string]string{}
 	filesOf := map[string]map[string]string{}
+	var wg sync.WaitGroup
+	var vmu sync.Mutex
 	for _, s := range []string{"floating-linkname", "attached-linkname"} {
-		src := filepath.Join(c.Verif, "sentinels", "C20", s)
-		files := readFiles(src)
-		filesOf[s] = files
-		if len(files) == 0 {
-			c.Inconclusive("sentinel-missing")
-			continue
-		}
-		prog := c.WriteProgram(&core.Program{Name: "c20/" + s, Files: files})
-		home := c.Dir("e2e-cache")
-		none := k.build(prog, home, "none", "none", "")
-		cold := k.build(prog, home, "on", "cold", "")
-		warm := k.build(prog, home, "on", "warm", "")
-		if !none.ok || !cold.ok {
-			c.Inconclusive("sentinel-does-not-build")
-			fmt.Println("C20 e2e: sentinel", s, "does not build:", tail(none.out+cold.out, 800))
-			continue
-		}
-		k.mu.Lock()
-		ts.e2ePrograms++
-		k.mu.Unlock()
-		k.expectCold("e2e/"+s, cold, files)
-		k.eval(2)
-		if cold.js != none.js {
-			c.Violate("e2e/"+s+"/cold-vs-nocache", "JavaScript of the cold-cache session differs from the NoCache build: "+jsDiff(none.js, cold.js), files)
-		}
-		switch {
-		case !warm.ok:
-			verdict[s] = "differs"
-			detail[s] = "the warm build fails: " + tail(warm.out, 600)
-		case warm.js != none.js:
-			verdict[s] = "differs"
-			runN := c.RunNode(filepath.Join(prog, "none.js"), core.NodeOpt{Timeout: time.Minute})
-			runW := c.RunNode(filepath.Join(prog, "warm.js"), core.NodeOpt{Timeout: time.Minute})
-			detail[s] = fmt.Sprintf("%s\nNoCache build prints %q (exit %d); build from restored packages prints %q (exit %d) %s", jsDiff(none.js, warm.js),
-				strings.TrimSpace(runN.Stdout), runN.Exit, strings.TrimSpace(runW.Stdout), runW.Exit, firstLineOf(strings.TrimSpace(runW.Stderr)))
-		default:
-			verdict[s] = "equal"
-			k.expectWarm("e2e/"+s, warm, cold.stats.StoreOK, files)
-		}
+		s := s
+		wg.Add(1)
+		go func() {
+			defer wg.Done()
+			k.e2eOneSentinel(s, &vmu, verdict, detail, filesOf)
+		}()
 	}
+	wg.Wait()
 	if verdict["attached-linkname"] == "differs" {
-		c.Violate("e2e/attached-linkname/warm-vs-nocache", "JavaScript compiled from restored packages differs from the NoCache build: "+detail["attached-linkname"], filesOf["attached-linkname"])
+		k.violate("e2e/attached-linkname/warm-vs-nocache", "JavaScript compiled from restored packages differs from the NoCache build: "+detail["attached-linkname"], filesOf["attached-linkname"])
 	}
 	if verdict["floating-linkname"] == "differs" {
 		if verdict["attached-linkname"] == "equal" {
@@ -587,7 +628,56 @@ func (k *check) e2eSentinel() {
 				"end to end: the program of sentinels/C20/floating-linkname compiles to different JavaScript from packages restored from the cache than from source, while its twin with the directive attached to the declaration (sentinels/C20/attached-linkname) is byte-identical",
 				detail["floating-linkname"], filesOf["floating-linkname"])
 		} else {
-			c.Violate("e2e/floating-linkname/warm-vs-nocache", "JavaScript compiled from restored packages differs from the NoCache build: "+detail["floating-linkname"], filesOf["floating-linkname"])
+			k.violate("e2e/floating-linkname/warm-vs-nocache", "JavaScript compiled from restored packages differs from the NoCache build: "+detail["floating-linkname"], filesOf["floating-linkname"])
 		}
+	}
+}
+
+func (k *check) e2eOneSentinel(s string, vmu *sync.Mutex, verdict, detail map[string]string, filesOf map[string]map[string]string) {
+	c := k.c
+	set := func(m map[string]string, v string) { vmu.Lock(); m[s] = v; vmu.Unlock() }
+	src := filepath.Join(c.Verif, "sentinels", "C20", s)
+	files := readFiles(src)
+	vmu.Lock()
+	filesOf[s] = files
+	vmu.Unlock()
+	if len(files) == 0 {
+		c.Inconclusive("sentinel-missing")
+		return
+	}
+	prog := c.WriteProgram(&core.Program{Name: "c20/" + s, Files: files})
+	home := c.Dir("e2e-cache")
+	var none buildRes
+	done := make(chan struct{})
+	go func() { none = k.build(prog, home, "none", "none", ""); close(done) }()
+	cold := k.build(prog, home, "on", "cold", "")
+	warm := k.build(prog, home, "on", "warm", "")
+	<-done
+	if !none.ok || !cold.ok {
+		c.Inconclusive("sentinel-does-not-build")
+		fmt.Println("C20 e2e: sentinel", s, "does not build:", tail(none.out+cold.out, 800))
+		return
+	}
+	k.mu.Lock()
+	ts.e2ePrograms++
+	k.mu.Unlock()
+	k.expectCold("e2e/"+s, cold, files)
+	k.eval(2)
+	if cold.js != none.js {
+		k.violate("e2e/"+s+"/cold-vs-nocache", "JavaScript of the cold-cache session differs from the NoCache build: "+jsDiff(none.js, cold.js), files)
+	}
+	switch {
+	case !warm.ok:
+		set(verdict, "differs")
+		set(detail, "the warm build fails: "+tail(warm.out, 600))
+	case warm.js != none.js:
+		set(verdict, "differs")
+		runN := c.RunNode(filepath.Join(prog, "none.js"), core.NodeOpt{Timeout: time.Minute})
+		runW := c.RunNode(filepath.Join(prog, "warm.js"), core.NodeOpt{Timeout: time.Minute})
+		set(detail, fmt.Sprintf("%s\nNoCache build prints %q (exit %d); build from restored packages prints %q (exit %d) %s", jsDiff(none.js, warm.js),
+			strings.TrimSpace(runN.Stdout), runN.Exit, strings.TrimSpace(runW.Stdout), runW.Exit, firstLineOf(strings.TrimSpace(runW.Stderr))))
+	default:
+		set(verdict, "equal")
+		k.expectWarm("e2e/"+s, warm, cold.stats.StoreOK, files)
 	}
 }
